@@ -6,7 +6,8 @@ Model of `compio-actor/src/process_group/mod.rs` + `strategy.rs` (C19, routing h
   * the cursor (`usize`, wrapping),
   * what `member.broker.send(message)` answers for each member *at the moment it is visited*
     (`Status`: `Ok(())`, `Err(Full)`, `Err(Closed)`).
-`scan_visits_once` (Lemmas/Group.lean) justifies the last point: a member is asked at most once per `send`.
+`scan_wrap` (Lemmas/Group.lean) / `send_characterised` (Props/C19.lean) justify the last point: the members
+asked are a prefix of the cyclic scan order, so each member is asked at most once per `send`.
 
 Core Lean only (the driver `c19d` links this file).
 -/
